@@ -58,6 +58,10 @@ func genC13(t *rapid.T) procCase {
 			if rapid.IntRange(0, 9).Draw(t, "emptyset") == 0 {
 				o.A = 0 // a guardian set without keys
 			}
+			if rapid.IntRange(0, 3).Draw(t, "sameindex") == 0 {
+				o.D = 0 // (run loop only) the current index again: identical, longer, shorter or different keys
+				o.B = rapid.SampledFrom([]int{0, 0, 0, 1}).Draw(t, "sameoffset")
+			}
 			return []op{o}
 		case "cleanup":
 			return []op{{K: k, A: rapid.IntRange(0, 7).Draw(t, "shift")}}
@@ -131,7 +135,11 @@ func send[T any](ch chan T, v T, died chan string) (string, bool) {
 	}
 }
 
-func runC13Loop(c procCase) (*vh.Violation, vh.Outcome) {
+func runC13Loop(c procCase) (*vh.Violation, vh.Outcome) { return runLoop(c, false) }
+
+// runLoop drives the real Processor.Run through its channels. With safety on, everything the loop broadcasts as
+// complete or stores is verified against the guardian set it names (C01/C02 through the loop's own set handling).
+func runLoop(c procCase, safety bool) (*vh.Violation, vh.Outcome) {
 	out := vh.Outcome{}
 	d, sctx := fixtures()
 	e := &penv{d: d, ctx: sctx, ownKey: ownKeyIdx, byBody: map[string]int{}, setByIdx: map[uint32]*setInfo{}, shadow: map[string][]byte{}, ids: map[string]vaa.VAAID{}}
@@ -196,6 +204,10 @@ func runC13Loop(c procCase) (*vh.Violation, vh.Outcome) {
 			s := &setInfo{}
 			if cur != nil {
 				s.Index = cur.Index + 1
+				if x.D == 0 {
+					s.Index = cur.Index // the same set reported again (every EVM watcher reports it), possibly with other keys
+					out.Labels = append(out.Labels, "set-index-repeated")
+				}
 			}
 			for k := 0; k < size; k++ {
 				if k == x.C {
@@ -212,6 +224,7 @@ func runC13Loop(c procCase) (*vh.Violation, vh.Outcome) {
 			cur = s
 			e.cur = s
 			e.sets = append(e.sets, s)
+			e.setByIdx[s.Index] = s
 			why, ok = send(le.setC, &common.GuardianSet{Keys: addrs, Index: s.Index}, le.died)
 		case "observe":
 			why, ok = send(le.lockC, e.msg(x.A).pub, le.died)
@@ -245,6 +258,47 @@ func runC13Loop(c procCase) (*vh.Violation, vh.Outcome) {
 		if w, k := barrier(); !k {
 			return fail(i, x, w)
 		}
+		if safety {
+			time.Sleep(300 * time.Microsecond) // own-signature loopbacks travel through a goroutine of the processor
+			if w, k := barrier(); !k {
+				return fail(i, x, w)
+			}
+			so, v := e.drain()
+			if v != nil {
+				return v, out
+			}
+			check := func(what string, b []byte) *vh.Violation {
+				p, err := vh.RefParse(b)
+				if err != nil {
+					return vh.V("C01/undecodable-vaa-"+what, "op %d: %v", i, err)
+				}
+				named := e.setByIdx[p.GSIndex]
+				if x.K == "inbound" {
+					named = e.cur // a peer's VAA is judged against the node's current set
+				}
+				if named == nil {
+					return vh.V("C01/vaa-names-unknown-set", "op %d: a %s VAA names guardian set %d, which the node never learned", i, what, p.GSIndex)
+				}
+				if _, err := vh.RefVerifyVAA(b, named.Addrs); err != nil {
+					return vh.V("C01/"+what+"-vaa-fails-verification", "op %d %+v: a %s VAA names guardian set %d (%d members) and does not verify against it: %v", i, x, what, p.GSIndex, len(named.Addrs), err)
+				}
+				out.NonTrivial = true
+				return nil
+			}
+			for _, b := range so.vaas {
+				if v := check("broadcast", b); v != nil {
+					return v, out
+				}
+			}
+			for _, ch := range so.changed {
+				if ch[1] == nil {
+					continue
+				}
+				if v := check("stored", ch[1]); v != nil {
+					return v, out
+				}
+			}
+		}
 		for len(e.sendC) > 4000 {
 			<-e.sendC
 		}
@@ -263,6 +317,40 @@ func runC13Loop(c procCase) (*vh.Violation, vh.Outcome) {
 		out.NonTrivial = true
 	}
 	return nil, out
+}
+
+// C01/C02 through the real run loop: realistic guardian-set histories (indices only grow), observations before and
+// after the node's own, set updates while messages are being aggregated.
+func genLoopSafety(t *rapid.T) procCase {
+	nmsg := rapid.IntRange(1, 3).Draw(t, "nmsg")
+	msgs := genMsgs(t, nmsg, false)
+	size := rapid.IntRange(1, 7).Draw(t, "size")
+	ops := []op{{K: "set", A: size, B: 0, C: rapid.IntRange(0, size-1).Draw(t, "ownpos"), D: 1}}
+	group := rapid.Custom(func(t *rapid.T) []op {
+		m := rapid.IntRange(0, nmsg-1).Draw(t, "m")
+		switch rapid.SampledFrom([]string{"observe", "observe", "gossip", "gossip", "gossip", "gossipvalid", "set", "inbound"}).Draw(t, "k") {
+		case "observe":
+			return []op{{K: "observe", A: m}, {K: "flush"}}
+		case "gossip":
+			return []op{{K: "gossip", A: m, B: rapid.IntRange(0, 12).Draw(t, "signer"), C: rapid.SampledFrom([]int{0, 0, 0, 3, 4, 6, 7}).Draw(t, "kind"), D: rapid.IntRange(0, 600).Draw(t, "x")}}
+		case "gossipvalid":
+			var o []op
+			for j := rapid.IntRange(0, 3).Draw(t, "from"); j < rapid.IntRange(1, 9).Draw(t, "to"); j++ {
+				o = append(o, op{K: "gossip", A: m, B: j, C: 0})
+			}
+			return o
+		case "set":
+			sz := rapid.IntRange(1, 7).Draw(t, "size2")
+			return []op{{K: "set", A: sz, B: rapid.SampledFrom([]int{0, 0, 1, 2, 5}).Draw(t, "offset"), C: rapid.IntRange(0, sz-1).Draw(t, "ownpos2"), D: 1}}
+		}
+		return []op{{K: "inbound", A: m, B: rapid.IntRange(0, len(inboundKinds)-1).Draw(t, "ikind"), C: rapid.IntRange(0, 1000).Draw(t, "seed")}}
+	})
+	ops = append(ops, flatten(rapid.SliceOfN(group, 2, 25).Draw(t, "ops"))...)
+	return procCase{Msgs: msgs, Ops: ops}
+}
+
+func TestVerif_C01_RunLoop(t *testing.T) {
+	vh.Check(t, vh.Prop[procCase]{ID: "C01", Gen: genLoopSafety, Run: func(c procCase) (*vh.Violation, vh.Outcome) { return runLoop(c, true) }})
 }
 
 func TestVerif_C13_RunLoop(t *testing.T) {
